@@ -9,12 +9,16 @@ Import ListNotations.
 Section Safety.
   Variables c0 c1 : list nat.
   Hypothesis Hcfg : c0 <> [] \/ c1 <> [].
+  (* fixed membership: the family of configurations is the single configuration (c0, c1) *)
+  Let F := [(c0, c1)].
+  Let HF : inter_family F := inter_family_single c0 c1 Hcfg.
+  Let HinF : In (c0, c1) F := or_introl eq_refl.
 
   Lemma x_inv : forall x, xreachable c0 c1 x ->
-    exists s, Inv c0 c1 s /\ (forall y, nodes s y = x_nodes x y) /\ msgs s = x_msgs x.
+    exists s, Inv F s /\ (forall y, nodes s y = x_nodes x y) /\ msgs s = x_msgs x.
   Proof.
-    intros x H. destruct (xreachable_sim c0 c1 x H) as (s & Hr & Hn & Hm).
-    exists s. split; [apply (mreachable_inv c0 c1 Hcfg); exact Hr|split; assumption].
+    intros x H. destruct (xreachable_sim c0 c1 F HinF x H) as (s & Hr & Hn & Hm).
+    exists s. split; [apply (mreachable_inv F HF); exact Hr|split; assumption].
   Qed.
 
   (* ---------------------------------------------------------------- election safety *)
@@ -24,7 +28,7 @@ Section Safety.
   Proof.
     intros x Hx a b Ha Hb Ht. destruct (x_inv x Hx) as (s & I & Hn & _).
     rewrite <- (Hn a) in Ha, Ht. rewrite <- (Hn b) in Hb, Ht.
-    pose proof (hA6b _ _ _ I a Ha) as La. pose proof (hA6b _ _ _ I b Hb) as Lb. unfold nd in La, Lb.
+    pose proof (hA6b _ _ I a Ha) as La. pose proof (hA6b _ _ I b Hb) as Lb. unfold nd in La, Lb.
     rewrite Ht in La. congruence.
   Qed.
 
@@ -36,7 +40,7 @@ Section Safety.
   Proof.
     intros x Hx a b i Hi Ha Hb Ht. destruct (x_inv x Hx) as (s & I & Hn & _).
     rewrite <- (Hn a) in *. rewrite <- (Hn b) in *.
-    apply (wf_match (LL s)); try assumption; try lia; [apply (hW1 _ _ _ I a)|apply (hW1 _ _ _ I b)].
+    apply (wf_match (LL s)); try assumption; try lia; [apply (hW1 _ _ I a)|apply (hW1 _ _ I b)].
   Qed.
 
   (* entries of a log carry non-decreasing terms, none above the holder's term *)
@@ -46,23 +50,23 @@ Section Safety.
       term_at (n_log (x_nodes x a)) j <= n_term (x_nodes x a).
   Proof.
     intros x Hx a i j Hi Hij Hj. destruct (x_inv x Hx) as (s & I & Hn & _). rewrite <- (Hn a) in *.
-    split; [apply (wf_sorted c0 c1 s I _ (hW1 _ _ _ I a)); assumption|].
-    destruct (term_at_in (n_log (nodes s a)) j ltac:(lia)) as (e & He & <-). apply (hW4 _ _ _ I a e He).
+    split; [apply (wf_sorted F s I _ (hW1 _ _ I a)); assumption|].
+    destruct (term_at_in (n_log (nodes s a)) j ltac:(lia)) as (e & He & <-). apply (hW4 _ _ I a e He).
   Qed.
 
   (* ---------------------------------------------------------------- state machine safety *)
-  Lemma committed_valid_nonnil : forall s t k, committed_at c0 c1 s t k -> LL s t <> [].
+  Lemma committed_valid_nonnil : forall s t k, committed_at F s t k -> LL s t <> [].
   Proof. intros s t k [[[H1 H2] _] _] E. rewrite E in H2. cbn in H2. lia. Qed.
 
-  Lemma committed_prefix_agree : forall s, Inv c0 c1 s ->
-    forall ta ka tb kb i, committed_at c0 c1 s ta ka -> committed_at c0 c1 s tb kb -> i <= ka -> i <= kb ->
+  Lemma committed_prefix_agree : forall s, Inv F s ->
+    forall ta ka tb kb i, committed_at F s ta ka -> committed_at F s tb kb -> i <= ka -> i <= kb ->
       firstn i (LL s ta) = firstn i (LL s tb).
   Proof.
     intros s I ta ka tb kb i Ha Hb Hia Hib.
     destruct (le_lt_dec ta tb) as [Hle|Hlt].
-    - destruct (LC_le c0 c1 Hcfg s I ta ka tb Ha Hle (committed_valid_nonnil s tb kb Hb)) as [_ H].
+    - destruct (LC_le F HF s I ta ka tb Ha Hle (committed_valid_nonnil s tb kb Hb)) as [_ H].
       symmetry. apply (firstn_agree_le _ _ _ ka); assumption.
-    - destruct (LC_le c0 c1 Hcfg s I tb kb ta Hb ltac:(lia) (committed_valid_nonnil s ta ka Ha)) as [_ H].
+    - destruct (LC_le F HF s I tb kb ta Hb ltac:(lia) (committed_valid_nonnil s ta ka Ha)) as [_ H].
       apply (firstn_agree_le _ _ _ kb); assumption.
   Qed.
 
@@ -73,7 +77,7 @@ Section Safety.
   Proof.
     intros x Hx a b i Ha Hb. destruct (x_inv x Hx) as (s & I & Hn & _).
     rewrite <- (Hn a) in *. rewrite <- (Hn b) in *.
-    destruct (hK9 _ _ _ I a) as [Ha1 Ha2]. destruct (hK9 _ _ _ I b) as [Hb1 Hb2]. unfold nd in *.
+    destruct (hK9 _ _ I a) as [Ha1 Ha2]. destruct (hK9 _ _ I b) as [Hb1 Hb2]. unfold nd in *.
     split; [lia|]. split; [lia|].
     destruct (Nat.eq_dec i 0) as [->|Hi]; [reflexivity|].
     destruct Ha2 as [Hz|(ta & ka & _ & Hca & Hka & Hfa)]; [lia|].
@@ -86,11 +90,11 @@ Section Safety.
   (* ghost form, micro level: an entry committed in term t (acknowledged by a quorum while it
      was the current-term entry k of the leader of t) is in the log of the leader of every
      later term *)
-  Theorem leader_completeness_ghost : forall s, mreachable c0 c1 s ->
-    forall t k t3, committed_at c0 c1 s t k -> t < t3 -> LL s t3 <> [] ->
+  Theorem leader_completeness_ghost : forall s, mreachable F s ->
+    forall t k t3, committed_at F s t k -> t < t3 -> LL s t3 <> [] ->
       k <= length (LL s t3) /\ firstn k (LL s t3) = firstn k (LL s t).
   Proof.
-    intros s Hs t k t3 Hc Hlt Hne. apply (LC c0 c1 Hcfg s (mreachable_inv c0 c1 Hcfg s Hs) t k t3 Hc Hlt Hne).
+    intros s Hs t k t3 Hc Hlt Hne. apply (LC F HF s (mreachable_inv F HF s Hs) t k t3 Hc Hlt Hne).
   Qed.
 
   (* observable form: whoever is leader holds every entry committed by any node whose term
@@ -103,24 +107,24 @@ Section Safety.
   Proof.
     intros x Hx l y Hl Ht. destruct (x_inv x Hx) as (s & I & Hn & _).
     rewrite <- (Hn l) in *. rewrite <- (Hn y) in *.
-    destruct (hK9 _ _ _ I y) as [Hy1 Hy2]. unfold nd in *.
+    destruct (hK9 _ _ I y) as [Hy1 Hy2]. unfold nd in *.
     destruct Hy2 as [Hz|(t0 & k0 & Ht0 & Hc0 & Hk0 & Hf)]; [rewrite Hz; split; [lia|reflexivity]|].
-    pose proof (hW5 _ _ _ I l Hl) as HLL. unfold nd in HLL.
-    assert (Hne : LL s (n_term (nodes s l)) <> []) by (apply (hW8 _ _ _ I _ l); apply (hA6b _ _ _ I l Hl)).
-    destruct (LC_le c0 c1 Hcfg s I t0 k0 (n_term (nodes s l)) Hc0 ltac:(lia) Hne) as [H1 H2].
+    pose proof (hW5 _ _ I l Hl) as HLL. unfold nd in HLL.
+    assert (Hne : LL s (n_term (nodes s l)) <> []) by (apply (hW8 _ _ I _ l); apply (hA6b _ _ I l Hl)).
+    destruct (LC_le F HF s I t0 k0 (n_term (nodes s l)) Hc0 ltac:(lia) Hne) as [H1 H2].
     rewrite HLL in H1, H2. split; [lia|]. rewrite Hf. apply (firstn_agree_le _ _ _ k0); assumption.
   Qed.
 
   (* what a commit index stands for: it is covered by an index k0 that a quorum acknowledged
      in the very term t0 in which the leader of t0 created entry k0 (never an old-term entry
      counted by replicas) *)
-  Theorem commit_justified : forall s, mreachable c0 c1 s ->
+  Theorem commit_justified : forall s, mreachable F s ->
     forall y, n_commit (nodes s y) = 0 \/
       exists t0 k0, t0 <= n_term (nodes s y) /\ n_commit (nodes s y) <= k0 /\
-        term_at (LL s t0) k0 = t0 /\ Qr c0 c1 (ackedp s t0 k0) /\
+        term_at (LL s t0) k0 = t0 /\ Qr F (ackedp s t0 k0) /\
         firstn (n_commit (nodes s y)) (n_log (nodes s y)) = firstn (n_commit (nodes s y)) (LL s t0).
   Proof.
-    intros s Hs y. destruct (hK9 _ _ _ (mreachable_inv c0 c1 Hcfg s Hs) y) as [_ [H|(t0 & k0 & H1 & [[_ H2] H3] & H4 & H5)]];
+    intros s Hs y. destruct (hK9 _ _ (mreachable_inv F HF s Hs) y) as [_ [H|(t0 & k0 & H1 & [[_ H2] H3] & H4 & H5)]];
       [left; exact H|right]. exists t0, k0.
     split; [exact H1|split; [exact H4|split; [exact H2|split; [exact H3|exact H5]]]].
   Qed.
